@@ -929,6 +929,9 @@ var c19Fixed = []c19Case{
 	{style: 1, limit: 1, msgs: []c19Msg{{role: "u", content: "m0q long long long"}, {role: "s", content: "m1q SYS"}, {role: "u", content: "m2q hi"}}},
 	{style: 0, limit: 3, msgs: []c19Msg{{role: "s", content: "m0q A"}, {role: "u", content: "m1q long long long"}, {role: "s", content: "m2q B"}, {role: "u", content: "m3q hi"}}},
 	{style: 3, limit: 2, msgs: []c19Msg{{role: "s", content: "m0q"}, {role: "s", content: "m1q"}, {role: "u", content: "m2q"}}},
+	// F4b (legacy loop overwrites a pending turn) and F4c (deleteNode else-list panic)
+	{style: 1, limit: 2048, msgs: []c19Msg{{role: "u", content: "m0q hello"}, {role: "a", content: ""}, {role: "u", content: "m2q again"}}},
+	{style: c19StyleGenerated, src: `{{ .Prompt }}{{ if .System }}{{ .Response }}{{ else }}x{{ end }}`, limit: 2048, msgs: []c19Msg{{role: "u", content: "m0q hi"}}},
 	// shapes from prompt_test.go
 	{style: 1, proj: 2, limit: 1024, msgs: []c19Msg{{role: "u", content: "m0q You're a test, Harry!"}, {role: "u", imgs: []c19Img{{1, true}}}, {role: "u", imgs: []c19Img{{2, true}}}, {role: "a", content: "m3q I-I'm a what?"}, {role: "u", content: "m4q A test."}}},
 	{style: 1, proj: 2, limit: 2048, msgs: []c19Msg{{role: "u", content: "m0q Compare these two [img] pictures", imgs: []c19Img{{1, true}, {2, true}}}}},
